@@ -1,9 +1,49 @@
 //! `mc <Cxx> --tier quick|thorough [--replay FILE]`
 //! exit 0 held / 1 + VIOLATION line / 2 machinery error (never a verdict)
+#![allow(dead_code)]
 mod bind;
 mod harness;
 mod world;
+#[cfg(feature = "c01")]
+mod c01;
+#[cfg(feature = "c02")]
 mod c02;
+#[cfg(feature = "c03")]
+mod c03;
+#[cfg(feature = "c04")]
+mod c04;
+#[cfg(feature = "c05")]
+mod c05;
+#[cfg(feature = "c06")]
+mod c06;
+#[cfg(feature = "c07")]
+mod c07;
+#[cfg(feature = "c08")]
+mod c08;
+#[cfg(feature = "c09")]
+mod c09;
+#[cfg(feature = "c10")]
+mod c10;
+#[cfg(feature = "c11")]
+mod c11;
+#[cfg(feature = "c12")]
+mod c12;
+#[cfg(feature = "c13")]
+mod c13;
+#[cfg(feature = "c14")]
+mod c14;
+#[cfg(feature = "c15")]
+mod c15;
+#[cfg(feature = "c16")]
+mod c16;
+#[cfg(feature = "c17")]
+mod c17;
+#[cfg(feature = "c18")]
+mod c18;
+#[cfg(feature = "c19")]
+mod c19;
+#[cfg(feature = "c20")]
+mod c20;
 
 use harness::Tier;
 
@@ -41,11 +81,49 @@ fn main() {
         }
         i += 1;
     }
-    let _ = replay;
     let code = match id {
-        "C02" => c02::run(tier),
+        #[cfg(feature = "c01")]
+        "C01" => c01::run(tier, replay.as_deref()),
+        #[cfg(feature = "c02")]
+        "C02" => c02::run(tier, replay.as_deref()),
+        #[cfg(feature = "c03")]
+        "C03" => c03::run(tier, replay.as_deref()),
+        #[cfg(feature = "c04")]
+        "C04" => c04::run(tier, replay.as_deref()),
+        #[cfg(feature = "c05")]
+        "C05" => c05::run(tier, replay.as_deref()),
+        #[cfg(feature = "c06")]
+        "C06" => c06::run(tier, replay.as_deref()),
+        #[cfg(feature = "c07")]
+        "C07" => c07::run(tier, replay.as_deref()),
+        #[cfg(feature = "c08")]
+        "C08" => c08::run(tier, replay.as_deref()),
+        #[cfg(feature = "c09")]
+        "C09" => c09::run(tier, replay.as_deref()),
+        #[cfg(feature = "c10")]
+        "C10" => c10::run(tier, replay.as_deref()),
+        #[cfg(feature = "c11")]
+        "C11" => c11::run(tier, replay.as_deref()),
+        #[cfg(feature = "c12")]
+        "C12" => c12::run(tier, replay.as_deref()),
+        #[cfg(feature = "c13")]
+        "C13" => c13::run(tier, replay.as_deref()),
+        #[cfg(feature = "c14")]
+        "C14" => c14::run(tier, replay.as_deref()),
+        #[cfg(feature = "c15")]
+        "C15" => c15::run(tier, replay.as_deref()),
+        #[cfg(feature = "c16")]
+        "C16" => c16::run(tier, replay.as_deref()),
+        #[cfg(feature = "c17")]
+        "C17" => c17::run(tier, replay.as_deref()),
+        #[cfg(feature = "c18")]
+        "C18" => c18::run(tier, replay.as_deref()),
+        #[cfg(feature = "c19")]
+        "C19" => c19::run(tier, replay.as_deref()),
+        #[cfg(feature = "c20")]
+        "C20" => c20::run(tier, replay.as_deref()),
         _ => {
-            eprintln!("unknown check {id}");
+            eprintln!("unknown or not compiled-in check {id}");
             2
         }
     };
